@@ -236,8 +236,10 @@ func main() {
 			for _, L := range []int{1000, 1001, 1002, 4096} {
 				s.httpResponse(L, []string{"getbig", "first", "last"})
 				s.sharedHandler(L)
+				s.serverSideLimit(L)
 			}
 			s.nats(natsBroker)
+			s.natsConcurrent(natsBroker)
 			s.direct(natsBroker, limits)
 			run.Add("measurement_sends", m.sends)
 		}(proto)
